@@ -127,6 +127,16 @@ def parse_unit(text, fname):
             segs.append(("stub", m.group(1), m.group(2)))
             start = n + 1
             continue
+        m = re.match(r"^\s*//!serde\s+(\S+)\s+(\S+)\s*$", ln)
+        if m and region is None:
+            # the unit relies on the serde round trip of this repository type (json_parse(json_enc(x)) == x) without extracting it:
+            # its serde attributes and derives are compared with the recorded fingerprint (prelude/type_attrs.json)
+            if cur:
+                segs.append(("text", "\n".join(cur), start))
+                cur = []
+            segs.append(("serde", m.group(1), m.group(2)))
+            start = n + 1
+            continue
         m = re.match(r"^\s*//!assumed\s+(\S+)\s+(\S+)\s+sha=(\S+)\s*$", ln)
         if m and region is None:
             # the hand-written contract that follows describes a repository function that is not under contract anywhere: its text is
